@@ -69,11 +69,11 @@ ASSUMPTIONS = [
 BOUNDS = {
     'quick': {'nego/caps': '10 configurations x (2^3 MP subsets of a pool of 3 families x 2^5 capability presence bits x 4 next-hop sets), '
                            'all values symbolic (ASN4 32 bit, AS field 16 bit, hold time 16 bit, router-id 32 bit, ADD-PATH mode 0..3 per family)',
-              'nego/refusal': '7 configurations, every fixed field symbolic (AS 16+32 bit, hold 16 bit, router-id 32 bit), ASN4 presence forked',
+              'nego/refusal': '9 configurations (incl. our hold time 0 and 3), every fixed field symbolic (AS 16+32 bit, hold 16 bit, router-id 32 bit), ASN4 presence forked',
               'nego/layout': '2 configurations x 4 orders x 5 duplications x 4 layouts', 'roundtrip': '22 configurations + 255-byte sweep 250..260',
               'raw': 'OPEN bodies of 0..14 free symbolic bytes', 'capvalue': '8 capability codes x 2-5 value lengths, value bytes free',
               'requirepath': 'both modes symbolic 0..3'},
-    'thorough': {'nego/caps': '28 configurations, pool of 4 families (2^4 MP subsets)', 'nego/refusal': '12 configurations',
+    'thorough': {'nego/caps': '28 configurations, pool of 4 families (2^4 MP subsets)', 'nego/refusal': '14 configurations',
                  'nego/layout': '4 configurations', 'raw': 'OPEN bodies of 0..15 free symbolic bytes', 'roundtrip': '45 configurations + sweep 240..270',
                  'capvalue': 'same', 'requirepath': 'same'},
 }
@@ -168,6 +168,9 @@ REFUSAL_QUICK = [
     conf('as4-peer', local_as=65000, peer_as=80000),
     conf('no-asn4-ibgp', local_as=65000, peer_as=65000, asn4=False),
     conf('as-trans-peer', local_as=65000, peer_as=23456),
+    # our own hold time is a dimension too: the acceptance test is on the RECEIVED value (RFC 4271 6.2), not on the minimum
+    conf('hold0-ebgp', hold=0),
+    conf('hold3-ibgp', local_as=65000, peer_as=65000, hold=3),
 ]
 REFUSAL_THOROUGH = REFUSAL_QUICK + [
     conf('t-no-asn4-ebgp', asn4=False),
